@@ -223,10 +223,25 @@ func c19One(c []string) string {
 	rep.mu.Lock()
 	fmt.Fprintf(&sb, " x=%d", rep.unexpected)
 	rep.mu.Unlock()
+	// ONE consumer for the whole stream, as deployed: its schema message object is reused for
+	// every Kafka message, and each message must decode to its own values only
+	target := fresh()
+	kc := consumer.NewKafkaConsumer(consumer.ConsumerInput{KafkaTopic: topic, KafkaProtoSchema: target, MsgDelimitWithLen: true})
+	consume := func(tp string, v []byte) (s string) {
+		defer func() {
+			if r := recover(); r != nil {
+				s = "short"
+			}
+		}()
+		if err := kc.DecodeAndPrintMsg(&sarama.ConsumerMessage{Topic: tp, Value: v}); err != nil {
+			return "err"
+		}
+		return c19Dump(target)
+	}
 	for _, m := range got {
 		v, _ := m.Value.Encode()
 		// the real consumer-side decoder on this Kafka message
-		dump := c19Consume(m.Topic, fresh, v)
+		dump := consume(m.Topic, v)
 		fmt.Fprintf(&sb, " ; %s %d", m.Topic, (len(v)+63)/64)
 		for i := 0; i < len(v); i += 64 {
 			j := i + 64
